@@ -216,6 +216,7 @@ func (c *converter) syncFull() {
 		c.syncIngress(ing)
 	}
 	c.fullSyncAnnotations()
+	c.trackStrictHosts()
 	c.syncEndpoints()
 }
 
@@ -281,7 +282,25 @@ func (c *converter) syncPartial() {
 		c.syncIngress(ing)
 	}
 	c.partialSyncAnnotations()
+	c.trackStrictHosts()
 	c.syncChangedEndpoints()
+}
+
+// trackStrictHosts links the default host with the hosts that borrow its root path.
+//
+// If strict-host is enabled, a host without a root path receives the root path of
+// the default host, or the default backend if there is no such path. This is done
+// by the haproxy model when the host is added, so such hosts need to be built again
+// whenever the default host changes.
+func (c *converter) trackStrictHosts() {
+	if !c.haproxy.Global().StrictHost {
+		return
+	}
+	for _, host := range c.haproxy.Hosts().ItemsAdd() {
+		if host.Hostname != hatypes.DefaultHost && host.FindPath("/", hatypes.MatchBegin) == nil {
+			c.tracker.TrackNames(convtypes.ResourceHAHostname, hatypes.DefaultHost, convtypes.ResourceHAHostname, host.Hostname)
+		}
+	}
 }
 
 // trackAddedIngress add tracking hostnames and backends to new ingress objects
